@@ -225,9 +225,16 @@ def hosts(tier, nlabels):
                     yield h
 
 
-def trusted_lists(tier):
-    n = 3 if tier == "thorough" else 2
-    return [list(t) for t in gen.ordered_lists(TRUSTED_ENTRIES, n)]
+TRIPLE_ENTRIES = [".localhost", "[::1]", ".example.com", "bücher.example"]   # quick: 3-entry lists over these
+
+
+def trusted_lists(tier, triples=True):
+    if tier == "thorough":
+        return [list(t) for t in gen.ordered_lists(TRUSTED_ENTRIES, 3)]
+    out = [list(t) for t in gen.ordered_lists(TRUSTED_ENTRIES, 2)]
+    if triples:
+        out += [list(t) for t in gen.ordered_lists(TRIPLE_ENTRIES, 3, 3)]
+    return out
 
 
 class _Req(Request):
@@ -407,7 +414,9 @@ def run_A(unit, R, tier):
                     check_host_case(R, api, h, tl, s)
         return
     nlab = what
-    apis = APIS if (nlab <= 2 or tier == "thorough") else ["hit", "request"]
+    apis = APIS
+    if nlab == 3 and tier != "thorough":
+        tls = trusted_lists(tier, triples=False)     # 3-label hosts: every list of <=2 entries, all four entry points
     for h in gen.shard(hosts(tier, nlab), nshards, shard):
         for tl in tls:
             for api in apis:
@@ -701,7 +710,7 @@ def run_B2(unit, R, tier):
     n = 0
     for tr in TRUSTED_CONFIGS:
         d = Dbg(evalex=True, pin_on=True, trusted=tr)
-        T = tier == "thorough"
+        T = True      # the full command x secret x cookie x frame product in both tiers
         for host in B2_HOSTS:
             for cmd in (COMMANDS if T else ("eval", "console", "pinauth", "printpin")):
                 for secret in (SECRETS if T else ("right",)):
@@ -1284,23 +1293,22 @@ def units(tier):
     T = tier == "thorough"
     u = [("Cgraph",)] + [("Clong", i, 5) for i in range(5)]          # the unsplittable unit first
     u += [("A", 1, 0, 1), ("A", "lit", 0, 2), ("A", "lit", 1, 2)]
-    u += [("A", 2, i, 8 if T else 4) for i in range(8 if T else 4)]
-    n3 = 192 if T else 48
+    u += [("A", 2, i, 8) for i in range(8)]
+    n3 = 192 if T else 96
     u += [("A", 3, i, n3) for i in range(n3)]
     for evalex in (True, False):
         for pin_on in (True, False):
             u += [("B", evalex, pin_on, i, 12) for i in range(12)]
             u += [("B5", evalex, pin_on, ci) for ci in range(len(REAL_CONFIGS))]
     u += [("A", "r2", i, 16) for i in range(16)]
-    u += [("B2", i, 48 if T else 2) for i in range(48 if T else 2)] + [("B3",)] + [("B4", i, 12) for i in range(12)]
-    if T:
-        u += [("B4", i, 12, ev, po) for i in range(12) for ev, po in ((True, False), (False, True), (False, False))]
+    u += [("B2", i, 48) for i in range(48)] + [("B3",)] + [("B4", i, 12) for i in range(12)]
+    u += [("B4", i, 12, ev, po) for i in range(12) for ev, po in ((True, False), (False, True), (False, False))]
     if T:
         u += [("Cseq", "full", 5, i, 32) for i in range(32)]
         u += [("Cseq", "reduced", 7, i, 32) for i in range(32)]
     else:
-        u += [("Cseq", "full", 3, i, 4) for i in range(4)]
-        u += [("Cseq", "reduced", 5, i, 8) for i in range(8)]
+        u += [("Cseq", "full", 4, i, 16) for i in range(16)]
+        u += [("Cseq", "reduced", 6, i, 24) for i in range(24)]
     return u
 
 
@@ -1356,9 +1364,9 @@ def finalize(R, tier):
     if ncounters < 12:
         raise core.Broken(f"vacuity: PIN graph saw only {ncounters} counter values")
     return {
-        "bound": ("hosts <=3 labels x trusted lists <=%d; gate product complete; PIN machine closed graph; "
+        "bound": ("hosts <=3 labels x trusted lists <=%s; gate product complete; PIN machine closed graph; "
                   "unmerged sequences <=%s" % ((3, "5 (10 kinds) / 7 (5 kinds)") if tier == "thorough"
-                                                 else (2, "3 (10 kinds) / 5 (5 kinds)"))),
+                                                 else ("2 (+3-entry lists over 4 entries)", "4 (11 kinds) / 6 (5 kinds)"))),
         "exhaustive": True,
         "closed": True,
         "counter_values_reached": ncounters,
